@@ -1224,7 +1224,10 @@ nni_ctx_open(nni_ctx **ctxp, nni_sock *sock)
 	nni_mtx_lock(&sock->s_mx);
 	if (sock->s_closing) {
 		nni_mtx_unlock(&sock->s_mx);
-		nni_ctx_rele(ctx);
+		// Close it (not just release it): a context that is not
+		// marked closed stays on the socket's list, and the closing
+		// socket would wait for it forever.
+		nni_ctx_close(ctx);
 		return (NNG_ECLOSED);
 	}
 	nni_mtx_unlock(&sock->s_mx);
